@@ -219,7 +219,13 @@ func (g *stmtGen) stmt(inLoop, inFunc bool) {
 		}
 		g.line("}")
 	case 7:
-		switch rx.Uniform(g.rt, 5, "loopform") {
+		switch rx.Uniform(g.rt, 7, "loopform") {
+		case 5: // the one-clause form whose condition is a bare call
+			g.line("for below(%d) {", rx.Range(g.rt, "bound", 0, 3))
+			g.line("\tbump()")
+		case 6: // a negated call
+			g.line("for !ok(cnt - %d) {", rx.Range(g.rt, "bound", 0, 3))
+			g.line("\tbump()")
 		case 3: // no condition: the body leaves the loop
 			g.line("for i%d := 0; ; i%d++ {", id, id)
 			g.line("\tif i%d >= %d {", id, rx.Range(g.rt, "bound", 0, 2))
@@ -319,6 +325,7 @@ func sink(a int, b int) { }
 var cnt int
 func reset() int { cnt = 0; return 7 }
 func bump() { cnt++ }
+func below(n int) bool { return cnt < n }
 func fwd2() (int, int) { lit := func() int { return 1 }; _ = lit; return two() }
 func fwd1() int { lit := func() (int, int) { return 1, 2 }; _, _ = lit(); return one() }
 func fwd0() (int, int) { func() { bump() }(); if cnt > 100 { return 0, 0 }; return two() }
